@@ -6,17 +6,20 @@
 From Coq Require Import String.
 From AV Require Import Lib.Base Lib.V Gen.Consts.
 From AV Require Export H2.Prepare H2.SendLoop.
-From AV Require Import H2.Spec.
+From AV Require Import H2.Spec H2.RecvPayload.
 Open Scope N_scope.
 
 Inductive cev := BC (len fill : N) | BP | BE.
+(* request side: answers of the RecvStream, as the handler's items reveal them *)
+Inductive uev := UD (len start : N) | UE (e : N) | UEnd.
 
 Record scase := mkS {
   s_head : bool; s_status : N; s_size : bsize; s_hdrs : list (bytes * bytes);
   s_body : list cev;
   s_caps : list cap_ans;      (* grant sequence the model is run under *)
   s_seen : option N;          (* Some k: the client saw only k DATA frames (reset / failure) *)
-  s_cut : bool                (* the client itself ended the stream: end tag not compared *)
+  s_cut : bool;               (* the client itself ended the stream: end tag not compared *)
+  s_up : option (list uev)    (* Some: the request carried a body read through h2::Payload *)
 }.
 Definition case := list scase.
 
@@ -49,8 +52,30 @@ Definition end_tag (o : outcome) : string :=
   | OErrResponse | OErrSend | OErrBody => "server-reset"
   end.
 
+Definition rev_of (u : uev) : rev :=
+  match u with
+  | UD len start => RData (genb (N.to_nat len) (start mod 251))
+  | UE e => RErr e
+  | UEnd => REnd
+  end.
+
+(* what the handler observes on `h2::Payload`: item lengths, bytes, terminal item *)
+Definition up_items (us : list uev) : list pitem := fst (drain (map rev_of us) []).
+Definition up_failed (us : list uev) : bool :=
+  match last (up_items us) PPending with PErr _ => true | _ => false end.
+Definition VUp (us : list uev) : V :=
+  let its := up_items us in
+  let chunks := delivered its in
+  let data := concat chunks in
+  let d := digest data in
+  VT "up" [VL (map (fun b => VN (lenN b)) chunks); VN (lenN data); VN (fst d); VN (snd d);
+           VT (match last its PPending with
+               | PEnd => "end" | PErr (Http2Payload _) => "h2" | _ => "open" end) []].
+
 Definition run_stream (s : scase) : V :=
   if (100 <=? s_status s) && (s_status s <? 200) then VT "informational" [] else
+  if match s_up s with Some us => up_failed us | None => false end
+  then VT "upcut" [match s_up s with Some us => VUp us | None => VT "noup" [] end] else
   let r := mkResp (s_head s) (s_status s) (s_hdrs s) (s_size s) (map ev_of (s_body s)) in
   let '(t, o) := handle_response H2_CHUNK_SIZE [] r true (s_caps s) [] in
   let head := match t with OHead hs eos :: _ => VHead (s_status s) hs eos | _ => VT "nohead" [] end in
@@ -60,11 +85,13 @@ Definition run_stream (s : scase) : V :=
   let d := digest data in
   VT "s" [head; VL (map (fun f => VN (lenN (fst f))) fr); VN (lenN data); VN (fst d); VN (snd d);
           VBytes (firstn 16 data);
-          VT (if s_cut s then "cut" else end_tag o) []].
+          VT (if s_cut s then "cut" else end_tag o) [];
+          match s_up s with Some us => VUp us | None => VT "noup" [] end].
 
 (* the known-finding classifier of H2/Spec.v, evaluated on the case (diffed against the harness's) *)
 Definition known_stream (s : scase) : bool :=
   known_status_body (mkResp (s_head s) (s_status s) (s_hdrs s) (s_size s) []).
+
 
 Definition run_C08 (c : case) : V :=
   VT "case" [VBool (existsb known_stream c); VL (map run_stream c)].
